@@ -13,6 +13,16 @@ use crate::vecmodel::{Elem, MATRIX, OpMix, Sut, VOp, VecCfg, VecKind, per_page, 
 pub struct Case {
     pub cfg: VecCfg,
     pub ops: Vec<VOp>,
+    /// serve every read of the case through the file-IO back-end (crossover override H7 set to 0 bytes)
+    #[serde(default)]
+    pub io: bool,
+}
+
+struct CrossoverGuard;
+impl Drop for CrossoverGuard {
+    fn drop(&mut self) {
+        super::readrun::set_crossover(super::readrun::Crossover::Default);
+    }
 }
 
 pub struct P;
@@ -75,11 +85,16 @@ where
     Ok(n)
 }
 
-fn run_generic<V: VecKind>(cfg: VecCfg, ops: &[VOp], obs: &mut Obs) -> Result<(), String>
+fn run_generic<V: VecKind>(cfg: VecCfg, ops: &[VOp], io: bool, obs: &mut Obs) -> Result<(), String>
 where
     V::T: Elem,
 {
     let mut sut = Sut::<V>::new(cfg)?;
+    let _guard = CrossoverGuard;
+    if io {
+        super::readrun::set_crossover(super::readrun::Crossover::Zero);
+        obs.label("backend:file-io");
+    }
     let tag = format!("[{:?}/{}]", cfg.fmt, V::T::NAME);
     let mut regime_changes_with_truncation = false;
     let mut truncated_since_write = false;
@@ -95,6 +110,23 @@ where
                 let pages = inspect_pages(&sut).map_err(|e| format!("{tag} on-disk index after op #{i} {op:?}: {e}"))?;
                 if pages >= 2 {
                     obs.label("multi-page");
+                }
+                // the stored pages read back through both scan back-ends (several buffer refills when the
+                // compressed pages exceed the 512 KiB scan buffer)
+                let stored = sut.v().stored_len();
+                if !sut.model.stored_dirty && stored == sut.model.stored.min(sut.model.items.len()) {
+                    let want: Vec<V::T> = sut.model.items[..stored].iter().map(|x| x.expect("compressed vectors have no deleted slots")).collect();
+                    for back in [true, false] {
+                        if let Some(got) = sut.v().comp_fold_stored(back, 0, stored) {
+                            if let Some(d) = crate::vecmodel::first_diff_dense(&got, &want) {
+                                return Err(format!("{tag} after op #{i} {op:?}: fold_stored_{}(0, {stored}) differs from the values written: {d}", if back { "io" } else { "mmap" }));
+                            }
+                        }
+                    }
+                    let data_bytes = sut.db.get_region(&format!("{}/usize", sut.name)).map(|r| r.meta().len()).unwrap_or(0);
+                    if data_bytes > 512 * 1024 + HEADER_OFFSET {
+                        obs.label("scan:several-buffer-refills");
+                    }
                 }
                 let new: Vec<&&'static str> = sut.regimes.difference(&before).collect();
                 let this = new.first().map(|s| **s);
@@ -134,8 +166,15 @@ impl Prop for P {
             .prop_flat_map(move |ci| {
                 let (fmt, ty) = pairs[ci];
                 let mix = OpMix { raw_ops: false, rollback_ops: false, plain_writes: true, reimport: true, reset: true };
-                prop::collection::vec(vop_strategy(mix), 0..=n)
-                    .prop_map(move |ops| Case { cfg: VecCfg { fmt, ty, retention: 0 }, ops })
+                // 1 case in 40 starts with more than one file-IO scan buffer of stored values and reads through that
+                // back-end; 1 in 5 of the others reads through it too
+                (prop::collection::vec(vop_strategy(mix), 0..=n), 0u8..40, -8i8..=8, any::<u16>()).prop_map(move |(mut ops, big, d, pat)| {
+                    if big == 0 {
+                        ops.insert(0, VOp::PushRun { n: crate::vecmodel::RunLen::IoFills(d), pat });
+                        ops.insert(1, VOp::Write);
+                    }
+                    Case { cfg: VecCfg { fmt, ty, retention: 0 }, ops, io: big < 10 }
+                })
             })
             .boxed()
     }
@@ -143,14 +182,15 @@ impl Prop for P {
     fn run(case: &Case, obs: &mut Obs) -> Result<(), String> {
         let cfg = case.cfg;
         let ops = &case.ops[..];
-        dispatch_vec!(cfg, run_generic, (cfg, ops, obs))
+        let io = case.io;
+        dispatch_vec!(cfg, run_generic, (cfg, ops, io, obs))
     }
 
     fn rule() -> String {
-        "compressed formats (Pco/LZ4/Zstd x 2..32-byte elements, EagerVec<PcoVec>): value sequences incl. MIN/MAX and every float bit class; push chunkings chosen relative to the current page fill (1, k, exactly to the boundary, boundary±1/2, one page ±1, 2.5 pages); truncation into the raw page / into a compressed page / on a boundary / to 0 followed by appends; write/flush/stamped_write/reset/re-import anywhere. Oracle: bit-exact model comparison after every op + structural parse of the on-disk page index region after every write and re-import (gap-free from the header, non-last pages full and compressed, counts sum to stored length, data region ends at last page end). Non-trivial: >=2 distinct write regimes (fast raw append / partial-page re-encode / fresh pages) with a truncation between a regime change.".into()
+        "compressed formats (Pco/LZ4/Zstd x 2..32-byte elements, EagerVec<PcoVec>): value sequences incl. MIN/MAX and every float bit class; push chunkings chosen relative to the current page fill (1, k, exactly to the boundary, boundary±1/2, one page ±1, 2.5 pages); truncation into the raw page / into a compressed page / on a boundary / to 0 followed by appends; write/flush/stamped_write/reset/re-import anywhere. 1 case in 40 starts with more than one 512 KiB scan buffer of stored values and 1 in 4 serves every read through the file-IO back-end. Oracle: bit-exact model comparison after every op, both stored scan back-ends (fold_stored_io / fold_stored_mmap) over the whole stored prefix after every write + structural parse of the on-disk page index region after every write and re-import (gap-free from the header, non-last pages full and compressed, counts sum to stored length, data region ends at last page end). Non-trivial: >=2 distinct write regimes (fast raw append / partial-page re-encode / fresh pages) with a truncation between a regime change.".into()
     }
 
     fn mandatory_labels() -> &'static [&'static str] {
-        &["regime:fast-raw-append", "regime:partial-page-reencode", "regime:fresh-pages", "raw-page-overflows", "write-after-truncate-below-stored", "multi-page", "reimport"]
+        &["regime:fast-raw-append", "regime:partial-page-reencode", "regime:fresh-pages", "raw-page-overflows", "write-after-truncate-below-stored", "multi-page", "reimport", "backend:file-io", "scan:several-buffer-refills"]
     }
 }
